@@ -81,6 +81,9 @@ namespace pika::detail {
             }
 
             bool not_empty = !queue_.empty();
+#if defined(PIKA_VERIF)
+            PIKA_VERIF_POINT(209, this, 0, 0);
+#endif
             ctx.resume();
             return not_empty;
         }
@@ -141,6 +144,7 @@ namespace pika::detail {
             ::pika::detail::unlock_guard<std::unique_lock<mutex_type>> ul(lock);
 #if defined(PIKA_VERIF)
             PIKA_VERIF_POINT(705, this, 0, 0);    // wait: enqueued, internal lock released, before suspend
+            PIKA_VERIF_POINT(205, this, 0, 0);
 #endif
             this_ctx.suspend();
 #if defined(PIKA_VERIF)
